@@ -254,7 +254,7 @@ def handleTth (args : List String) (impl : String) : String × String :=
     | some l =>
       let raw := 10 + l                       -- 2 + 3 + (2+1) + (2+L)
       let sz := raw + (4 - raw % 4) % 4
-      let model := if sz > Facts.ttMaxHeaderSize then "err" else s!"ok {sz / 4 % 65536} {14 + sz}"
+      let model := if sz % 2 ^ Facts.ttEncodeSizeCheckBits > Facts.ttMaxHeaderSize then "err" else s!"ok {sz / 4 % 65536} {14 + sz}"
       let verdict :=
         match res with
         | ["err"] => "ok"
